@@ -43,6 +43,8 @@ def scan(ctx, envs, run, families, t3, nontrivial, what_t3, max_report=6):
     t2_bad = 0
     t3_bad = 0
     reported_shapes = set()
+    found_shapes = {}
+    plain_shapes = {}
     for a, b, x, aa in run.records():
         sid = a[:a.index("|")]
         fam = fam_of.get(sid.split(".")[0], "")
@@ -53,21 +55,25 @@ def scan(ctx, envs, run, families, t3, nontrivial, what_t3, max_report=6):
             ctx.samples.append({"case": a[:300], "oracle": (aa or "")[:150]})
         fields = None
         if a != b:
+            # the model no longer describes the code on this case: look for a failing input of the PROPERTY among
+            # ALL disagreeing cases (oracle vs implementation); report the bare correspondence break only for shapes
+            # on which no such input exists
             t2_bad += 1
-            if sid not in reported_shapes and len(reported_shapes) < max_report:
-                reported_shapes.add(sid)
-                sid_, form, hx, ia, ib, fields = rtcat.split_line(a)
-                fields["_hex"] = hx
-                fields["_form"] = form
-                fields["_a"] = ia
-                fields["_b"] = ib
-                why = t3(sid, fields, x, aa)
-                rep = dict(describe(envs, sid), form=form, input_hex=hx, a=ia, b=ib, impl=a, model=b, oracle=aa)
-                if why:
-                    ctx.violation("%s: %s (and the model no longer matches the code)" % (what_t3, why), rep)
-                else:
-                    rep["broken"] = "correspondence Sem.v (tparse/tcheck) vs the runtime crate on shape %s" % sid
-                    ctx.violation("model/implementation correspondence broken on %s" % sid, rep, found_input=False)
+            sid_, form, hx, ia, ib, fields = rtcat.split_line(a)
+            fields["_hex"] = hx
+            fields["_form"] = form
+            fields["_a"] = ia
+            fields["_b"] = ib
+            if sid in found_shapes or (sid in plain_shapes and len(found_shapes) >= max_report):
+                continue
+            why = t3(sid, fields, x, aa)
+            rep = dict(describe(envs, sid), form=form, input_hex=hx, a=ia, b=ib, impl=a, model=b, oracle=aa)
+            if why:
+                if len(found_shapes) < max_report:
+                    found_shapes[sid] = ("%s: %s (and the model no longer matches the code)" % (what_t3, why), rep)
+            elif sid not in plain_shapes and len(plain_shapes) < 4 * max_report:
+                rep["broken"] = "correspondence Sem.v (tparse/tcheck) vs the runtime crate on shape %s" % sid
+                plain_shapes[sid] = ("model/implementation correspondence broken on %s" % sid, rep)
             continue
         # fast path: decide T3 on the raw line where possible
         sid_, form, hx, ia, ib, fields = rtcat.split_line(a)
@@ -87,6 +93,13 @@ def scan(ctx, envs, run, families, t3, nontrivial, what_t3, max_report=6):
         ctx.count("family=%s" % fam)
         ctx.count("len=%d" % (len(hx) // 2 if hx != "-" else 0))
         ctx.count("verdict=%s" % ("ok" if fields["P"].startswith("ok") else fields["P"][:5]))
+    for sid, (msg, rep) in found_shapes.items():
+        ctx.violation(msg, rep)
+    nplain = 0
+    for sid, (msg, rep) in plain_shapes.items():
+        if sid not in found_shapes and nplain < (2 if found_shapes else max_report):
+            nplain += 1
+            ctx.violation(msg, rep, found_input=False)
     ctx.evaluations += n
     ctx.coverage["t2_mismatches"] = t2_bad
     ctx.coverage["t3_failures"] = t3_bad
